@@ -131,7 +131,19 @@ fn gen_draw(rng: &mut Rng, w: i32, h: i32) -> Op {
         }
         7 => Op::Stroke(follower(rng, w, h), src, random_style(rng, 4.), o),
         8 => Op::FillRect(rng.int(-2, w as i64) as f32, rng.int(-2, h as i64) as f32, rng.int(0, w as i64 + 2) as f32, rng.int(0, h as i64 + 2) as f32, src, o),
-        9 => Op::Clear(premul_pixel(rng)),
+        9 => {
+            if rng.chance(0.5) {
+                Op::Clear(premul_pixel(rng))
+            } else {
+                let (iw, ih) = (rng.int(1, 5) as i32, rng.int(1, 5) as i32);
+                let img = Img { w: iw, h: ih, data: random_image_data(rng, iw, ih) };
+                if rng.chance(0.5) {
+                    Op::DrawImageAt(rng.int(-3, w as i64) as f32, rng.int(-3, h as i64) as f32, img, o)
+                } else {
+                    Op::DrawImageWithSizeAt(rng.range(0.5, w as f64 + 2.) as f32, rng.range(0.5, h as f64 + 2.) as f32, rng.range(-2., w as f64) as f32, rng.range(-2., h as f64) as f32, img, o)
+                }
+            }
+        }
         10 => {
             let (mw, mh) = (rng.int(1, w as i64) as i32, rng.int(1, h as i64) as i32);
             Op::Mask(src, rng.int(-2, w as i64 - 1) as i32, rng.int(-2, h as i64 - 1) as i32, mw, mh, (0..(mw * mh)).map(|_| rng.byte_biased()).collect())
